@@ -14,6 +14,7 @@ import (
 
 type knownFinding struct {
 	Kind       string // finding | fixed
+	Clause     string // for run-time oracle findings: the rac_ensures clause (spaces removed)
 	Property   string
 	Obligation string
 	Text       string
@@ -49,6 +50,9 @@ func loadKnownFindings(path string) []knownFinding {
 			}
 			if strings.HasPrefix(fld, "obligation=") {
 				kf.Obligation = strings.TrimPrefix(fld, "obligation=")
+			}
+			if strings.HasPrefix(fld, "clause=") {
+				kf.Clause = strings.TrimPrefix(fld, "clause=")
 			}
 		}
 		kf.Text = ln
@@ -119,6 +123,14 @@ func runCheck(repo, verif, prop, tier string) int {
 	discharge(reps, work, timeout, need, prop)
 
 	known := loadKnownFindings(filepath.Join(verif, "known_findings.txt"))
+	// a recorded run-time oracle clause is skipped whatever property is being checked (the function may carry several property
+	// tags); its KNOWN-FINDING line is printed under the property the finding is recorded for
+	knownRacClauses = map[string]bool{}
+	for _, kf := range known {
+		if kf.Kind == "finding" && kf.Clause != "" && strings.HasSuffix(kf.Obligation, "#bounded-contract-search") {
+			knownRacClauses[strings.TrimSuffix(kf.Obligation, "#bounded-contract-search")+"|"+kf.Clause] = true
+		}
+	}
 	replayDir := filepath.Join(verif, "replays", prop)
 	os.RemoveAll(replayDir)
 
@@ -150,8 +162,23 @@ func runCheck(repo, verif, prop, tier string) int {
 			nObl++
 			name := r.Key + "#generate"
 			all = append(all, oblReport{Name: name, Kind: "generate", Status: "error: " + r.Err})
-			rp := writeReplayFile(replayDir, name, prop, nil, r.Err, "")
-			violations = append(violations, fmt.Sprintf("VIOLATION property=%s replay=%s obligation=%s no-failing-input-found", prop, rp, name))
+			// the contract no longer fits the code: no obligation can be generated, but the contract can still be executed against the
+			// real function on the enumerated inputs, which gives a failing input when the change really breaks the contract
+			confirmedHere := false
+			if r.Session != nil && r.Session.Fn != nil && r.Session.C != nil {
+				if src, _, err := buildReplayTest(p, r.Session, nil); err == nil {
+					out := runReplayTest(p, r.Session, src, filepath.Join(verif, "work", "rac", prop, sanitizeFile(r.Key)+"_stale"))
+					if out.Confirmed {
+						confirmedHere = true
+						rp := writeReplayFileX(replayDir, name, prop, nil, r.Err+"; "+out.Reason, src, true, map[string]interface{}{"replay_output": out.Output})
+						violations = append(violations, fmt.Sprintf("VIOLATION property=%s replay=%s obligation=%s", prop, rp, name))
+					}
+				}
+			}
+			if !confirmedHere {
+				rp := writeReplayFile(replayDir, name, prop, nil, r.Err, "")
+				violations = append(violations, fmt.Sprintf("VIOLATION property=%s replay=%s obligation=%s no-failing-input-found", prop, rp, name))
+			}
 			continue
 		}
 		for _, o := range r.Obls {
@@ -208,7 +235,7 @@ func runCheck(repo, verif, prop, tier string) int {
 			}
 			// not discharged: known finding?
 			if kf := matchKnown(known, prop, o.Name); kf != nil {
-				knownLines = append(knownLines, fmt.Sprintf("KNOWN-FINDING: property=%s %s", prop, kf.Text))
+				knownLines = append(knownLines, "KNOWN-FINDING: " + kf.Text)
 				continue
 			}
 			confirmed, rp := replayObligation(p, r, o, prop, replayDir, verif)
@@ -248,10 +275,20 @@ func runCheck(repo, verif, prop, tier string) int {
 		if len(counts) > 0 {
 			entry["oracle_counts"] = counts
 		}
+		for _, l := range strings.Split(out.Output, "\n") {
+			if strings.HasPrefix(l, "GOVC-KNOWN ") {
+				cl := strings.TrimSpace(strings.TrimPrefix(l, "GOVC-KNOWN "))
+				for _, kf := range known {
+					if kf.Kind == "finding" && kf.Property == prop && kf.Clause == cl && kf.Obligation == r.Key+"#bounded-contract-search" {
+						knownLines = append(knownLines, "KNOWN-FINDING: " + kf.Text)
+					}
+				}
+			}
+		}
 		if out.Confirmed {
 			name := r.Key + "#bounded-contract-search"
 			if kf := matchKnown(known, prop, name); kf != nil {
-				knownLines = append(knownLines, fmt.Sprintf("KNOWN-FINDING: property=%s %s", prop, kf.Text))
+				knownLines = append(knownLines, "KNOWN-FINDING: " + kf.Text)
 			} else {
 				rp := writeReplayFileX(replayDir, name, prop, nil, out.Reason, src, true, map[string]interface{}{"replay_output": out.Output})
 				violations = append(violations, fmt.Sprintf("VIOLATION property=%s replay=%s obligation=%s", prop, rp, name))
